@@ -46,6 +46,15 @@ func (t *TagSet) Reverse() {
 
 // LimitTagSets returns a tag set list with SLIMIT and SOFFSET applied.
 func LimitTagSets(a []*TagSet, slimit, soffset int) []*TagSet {
+	// The parser rejects negative values, but the options of a remote iterator
+	// request arrive unchecked: a negative limit or offset means none.
+	if slimit < 0 {
+		slimit = 0
+	}
+	if soffset < 0 {
+		soffset = 0
+	}
+
 	// Ignore if no limit or offset is specified.
 	if slimit == 0 && soffset == 0 {
 		return a
